@@ -217,16 +217,52 @@ pub enum Exec<T> {
     Inconclusive(String),
 }
 
+thread_local! {
+    /// per-thread auxiliary workers (other binaries than the abra worker), by key
+    static AUX: std::cell::RefCell<BTreeMap<String, Worker>> = const { std::cell::RefCell::new(BTreeMap::new()) };
+}
+
+/// A dead worker as a failure: class HostAbort, feature `abort:<kind>` (+ `asan:<report kind>`).
+pub fn died_failure(status: &str, stderr_tail: &str) -> Failure {
+    let cls = classify_abort(stderr_tail);
+    let mut f = Failure::new("HostAbort", format!("{cls}; status={status}")).feat(format!("abort:{cls}"));
+    if cls == "asan" {
+        // "==1==ERROR: AddressSanitizer: heap-use-after-free on address ..."
+        if let Some(kind) = stderr_tail.split("AddressSanitizer: ").nth(1).and_then(|r| r.split_whitespace().next()) {
+            f.msg = format!("asan {kind}; status={status}");
+            f = f.feat(format!("asan:{kind}"));
+        }
+    }
+    f.detail(json!({"status": status, "stderr_tail": stderr_tail}))
+}
+
 impl<'a> Env<'a> {
     fn call(&mut self, req: &Req) -> Exec<Resp> {
         match self.w.call(req) {
             Ok(Resp::WorkerPanic(p)) => Exec::Abort(Failure::new("HostPanic", norm_msg(&p.msg)).feat(format!("file:{}", base(&p.file))).detail(json!({"panic": p}))),
             Ok(r) => Exec::Ok(r),
             Err(WorkerFail::Timeout) => Exec::Inconclusive("watchdog".into()),
-            Err(WorkerFail::Died { status, stderr_tail }) => {
-                let cls = classify_abort(&stderr_tail);
-                Exec::Abort(Failure::new("HostAbort", format!("{cls}; status={status}")).feat(format!("abort:{cls}")).detail(json!({"status": status, "stderr_tail": stderr_tail})))
-            }
+            Err(WorkerFail::Died { status, stderr_tail }) => Exec::Abort(died_failure(&status, &stderr_tail)),
+        }
+    }
+
+    /// One JSON request to this runner thread's auxiliary worker `key` (created by `make` on
+    /// first use, e.g. `Worker::with_command(..)`; it lives as long as the thread). Same mapping
+    /// as for the abra worker: death = `HostAbort` failure, watchdog = inconclusive.
+    pub fn aux(&mut self, key: &str, make: &dyn Fn() -> Worker, payload: &Value) -> Exec<Value> {
+        let line = payload.to_string();
+        let r = AUX.with(|m| {
+            let mut m = m.borrow_mut();
+            let w = m.entry(key.to_string()).or_insert_with(make);
+            w.call_raw(&line)
+        });
+        match r {
+            Ok(l) => match serde_json::from_str::<Value>(&l) {
+                Ok(v) => Exec::Ok(v),
+                Err(e) => Exec::Inconclusive(format!("protocol: unparseable response from {key}: {e}")),
+            },
+            Err(WorkerFail::Timeout) => Exec::Inconclusive("watchdog".into()),
+            Err(WorkerFail::Died { status, stderr_tail }) => Exec::Abort(died_failure(&status, &stderr_tail)),
         }
     }
 
@@ -331,6 +367,8 @@ fn classify_abort(stderr: &str) -> &'static str {
         "asan"
     } else if stderr.contains("unsafe precondition") {
         "unsafe-precondition"
+    } else if stderr.contains("misaligned pointer dereference") {
+        "misaligned-pointer"
     } else if stderr.contains("stack overflow") || stderr.contains("has overflowed its stack") {
         "stack-overflow"
     } else if stderr.contains("memory allocation of") {
@@ -489,9 +527,9 @@ impl Ctx {
         self.assumptions.push(s.to_string());
     }
 
-    /// Record a problem of the harness itself (exit code 2 unless a violation is also reported).
-    pub fn harness_error(&mut self, s: String) {
-        self.harness_errors.push(s);
+    /// Record a harness problem (exit code 2 unless a violation is also found).
+    pub fn harness_error(&mut self, s: impl Into<String>) {
+        self.harness_errors.push(s.into());
     }
 
     fn replay_dir(&self) -> PathBuf {
@@ -671,6 +709,15 @@ impl Ctx {
                                     *a.known_hits.entry(key).or_insert(0) += 1;
                                 }
                                 None => {
+                                    // one record per root cause is enough: narrowing again would only cost time
+                                    // (every step may be a dead worker)
+                                    let sig = format!("{}|{}", f.class, f.msg);
+                                    {
+                                        let fl = found.lock().unwrap();
+                                        if fl.len() >= 5 || fl.iter().any(|(_, g)| format!("{}|{}", g.class, g.msg) == sig) {
+                                            continue;
+                                        }
+                                    }
                                     // narrow a failing fixed batch to its first failing element
                                     let mut narrowed: Option<(P::Case, Failure)> = None;
                                     for sub in p.split(c) {
@@ -723,6 +770,16 @@ impl Ctx {
                     let wcell = std::cell::RefCell::new(&mut w);
                     let last_fail: std::cell::RefCell<Option<Failure>> = std::cell::RefCell::new(None);
                     let res = runner.run(&strategy, |c| {
+                        // another thread has already minimised a failure with the same class and message:
+                        // end this thread's shrinking quickly (every remaining candidate "passes")
+                        if failed.get() {
+                            let sig = last_fail.borrow().as_ref().map(|f| format!("{}|{}", f.class, f.msg));
+                            if let Some(sig) = sig {
+                                if found.lock().unwrap().iter().any(|(_, g)| format!("{}|{}", g.class, g.msg) == sig) {
+                                    return Ok(());
+                                }
+                            }
+                        }
                         let v = {
                             let mut wb = wcell.borrow_mut();
                             let mut env = Env { w: &mut **wb, findings, tier };
